@@ -487,7 +487,7 @@ def deviations(rows, year, reduced=False, cols=None, max_alts=None, individual=F
                 continue
             if t is int and not adult and col not in ("alter", "geburtsmonat", "geburtstag", "behinderungsgrad") and not hh_level:
                 continue
-            if col == "rentner" and r["alter"] < 60:
+            if col == "rentner" and not adult:
                 continue
             if col in ("jahr_renteneintr", "monat_renteneintr") and not r["rentner"]:
                 continue
@@ -518,6 +518,11 @@ def deviations(rows, year, reduced=False, cols=None, max_alts=None, individual=F
                     for x in new:
                         if x["p_id"] in (r["p_id"], r["p_id_ehepartner"]):
                             x[col] = v
+                elif col == "rentner":
+                    new[i][col] = v
+                    if v:  # somebody who draws a pension (old-age or reduced-earning-capacity) has retired already
+                        new[i]["jahr_renteneintr"] = min(new[i]["jahr_renteneintr"], year - 1)
+                        new[i]["entgeltp_west"] = max(new[i]["entgeltp_west"], 10.0)
                 else:
                     new[i][col] = v
                 yield i, col, v, new
